@@ -123,3 +123,26 @@ Definition good_cfg (me peer : cfgT) : Prop :=
 
 Definition init_ok (cc sc : cfgT) : Prop :=
   is_cl cc = true /\ is_cl sc = false /\ good_cfg cc sc /\ good_cfg sc cc.
+
+(* ---- heartbeat: "never a foreign payload" ---------------------------------------------------- *)
+(* histories in which no raw heartbeat record is injected by a deviating peer (every other
+   operation, honest or deviating, is allowed) *)
+Definition no_hb_inject (o : op) : bool :=
+  match o with OInject (MHB _) => false | _ => true end.
+
+(* a heartbeat record in flight from a writer that requested payloads [wreq] to a reader that
+   requested [rreq] is a whole request for one of the writer's payloads or a whole response
+   carrying one of the reader's payloads *)
+Definition hb_rec_ok (wreq rreq : list (list Z)) (r : rec) : Prop :=
+  forall b, body r = MHB b ->
+    (exists p pad, b = hb_write 1 p pad /\ In p wreq) \/
+    (exists p, b = hb_write 2 p (padding 16) /\ In p rreq).
+
+(* payloads of the write_heartbeat calls made by endpoint [a] (true = client) in a history *)
+Fixpoint hb_calls (a : bool) (ops : list (bool * op)) : list (list Z) :=
+  match ops with
+  | [] => []
+  | (a', OHeartbeat p _) :: tl => if Bool.eqb a a' then p :: hb_calls a tl else hb_calls a tl
+  | _ :: tl => hb_calls a tl
+  end.
+
